@@ -7,6 +7,9 @@ import Mathlib.Algebra.BigOperators.Group.Finset.Basic
 import Mathlib.Algebra.BigOperators.Ring.Finset
 import Mathlib.Algebra.Field.Defs
 import Mathlib.Tactic.Ring
+import Mathlib.Tactic.Abel
+import Mathlib.Algebra.BigOperators.GroupWithZero.Action
+import Mathlib.Algebra.BigOperators.Group.Finset.Sigma
 namespace Pyttb
 variable {α : Type}
 
@@ -166,4 +169,84 @@ theorem ttsvFirst_spec (T : Dense α) (x : List α) (d n : Nat) (hd : 0 < d) (hs
     simpa [ttsvPartial] using this
 
 end semiring
+section semiring
+variable [CommSemiring α]
+
+theorem tsum_add (n L : Nat) (f g : List Nat → α) :
+    tsum n L (fun t => f t + g t) = tsum n L f + tsum n L g := by
+  induction L generalizing f g with
+  | zero => rfl
+  | succ L ih => simp only [tsum, ih, Finset.sum_add_distrib]
+
+theorem tsum_zero (n L : Nat) : tsum n L (fun _ => (0 : α)) = 0 := by
+  induction L with
+  | zero => rfl
+  | succ L ih => simp only [tsum, ih, Finset.sum_const_zero]
+
+theorem tsum_mul_left (n L : Nat) (g : List Nat → α) (a : α) :
+    tsum n L (fun t => a * g t) = a * tsum n L g := by
+  induction L generalizing g with
+  | zero => rfl
+  | succ L ih => simp only [tsum, ih, Finset.mul_sum]
+
+theorem tsum_nsmul (n L : Nat) (g : List Nat → α) (c : Nat) :
+    tsum n L (fun t => c • g t) = c • tsum n L g := by
+  induction L generalizing g with
+  | zero => rfl
+  | succ L ih => simp only [tsum, ih, Finset.smul_sum]
+
+/-- Sum over a list of functions commutes with the tuple sum. -/
+theorem tsum_list_sum {β : Type} (n L : Nat) (l : List β) (f : β → List Nat → α) :
+    tsum n L (fun t => (l.map fun b => f b t).sum) = (l.map fun b => tsum n L (f b)).sum := by
+  induction l with
+  | nil => simp [tsum_zero]
+  | cons b l ih => simp only [List.map_cons, List.sum_cons, tsum_add, ih]
+
+/-- Inserting a summed-over entry at every position of every `L`-tuple enumerates every
+`(L+1)`-tuple `L+1` times. -/
+theorem tsum_insertAll (n L : Nat) (G : List Nat → α) :
+    ∑ a ∈ Finset.range n, tsum n L (fun σ => ((insertAll a σ).map G).sum) = (L + 1) • tsum n (L + 1) G := by
+  induction L generalizing G with
+  | zero => simp [tsum, insertAll]
+  | succ L ih =>
+    have h1 : ∀ a, tsum n (L + 1) (fun σ => ((insertAll a σ).map G).sum) =
+        ∑ y ∈ Finset.range n, (tsum n L (fun ys => G (a :: y :: ys)) +
+          tsum n L (fun ys => ((insertAll a ys).map (fun ρ => G (y :: ρ))).sum)) := by
+      intro a
+      simp only [tsum, insertAll, List.map_cons, List.sum_cons, List.map_map, tsum_add]
+      rfl
+    simp only [h1, Finset.sum_add_distrib]
+    rw [Finset.sum_comm (f := fun a y => tsum n L (fun ys => ((insertAll a ys).map (fun ρ => G (y :: ρ))).sum))]
+    simp only [ih]
+    rw [← Finset.smul_sum]
+    have h2 : ∑ a ∈ Finset.range n, ∑ y ∈ Finset.range n, tsum n L (fun ys => G (a :: y :: ys)) = tsum n (L + 2) G := rfl
+    have h3 : ∑ y ∈ Finset.range n, tsum n (L + 1) (fun ρ => G (y :: ρ)) = tsum n (L + 2) G := rfl
+    rw [h2, h3]
+    simp only [add_smul, one_smul]
+    abel
+
+theorem list_sum_flatMap {β γ : Type} (l : List β) (f : β → List γ) (g : γ → α) :
+    ((l.flatMap f).map g).sum = (l.map fun b => ((f b).map g).sum).sum := by
+  induction l with
+  | nil => rfl
+  | cons b l ih => simp [List.flatMap_cons, ih]
+
+/-- Summing over all rearrangements of every `L`-tuple enumerates every `L`-tuple `L!` times. -/
+theorem tsum_perms (n L : Nat) (G : List Nat → α) :
+    tsum n L (fun u => ((perms u).map G).sum) = (fact L) • tsum n L G := by
+  induction L generalizing G with
+  | zero => simp [tsum, perms, fact]
+  | succ L ih =>
+    have h1 : ∀ a, tsum n L (fun t => ((perms (a :: t)).map G).sum) =
+        fact L • tsum n L (fun σ => ((insertAll a σ).map G).sum) := by
+      intro a
+      simp only [perms, list_sum_flatMap]
+      exact ih (fun σ => ((insertAll a σ).map G).sum)
+    simp only [tsum, h1]
+    rw [← Finset.smul_sum, tsum_insertAll, smul_smul, fact]
+    congr 1
+    ring
+
+end semiring
+
 end Pyttb
